@@ -15,15 +15,23 @@ MANIFEST = dict(
          "path from the loop head to the back edge yields exactly once, the loop's own item, that no other yield exists, that the "
          "wrapped iterable is iterated directly (never materialised) and that the loop has no early exit; public wrappers forward the "
          "iterable in role. Nullness analysis (interprocedural) decides that a total that may be None never reaches an ordering "
-         "comparison or arithmetic without a dominating None test; the same dataflow over the names that may be 0 decides that a total of 0 "
-         "(empty iterable) is never a divisor before an item was drawn without a dominating zero-excluding test. Parallel map: the result is list(...) over the executor's ordered "
-         "map inside its with-block; unordered collection APIs are forbidden. Key-value partition: every store to the key array is "
+         "comparison or arithmetic without a dominating None test (method calls on an instance of a package class built in the function are "
+         "followed as calls of that method); the same dataflow over the names that may be 0 decides that a total of 0 "
+         "(empty iterable) is never a divisor before an item was drawn without a dominating zero-excluding test. Parallel map: what pmap returns is "
+         "evaluated over a domain of ordered streams (items / consecutive chunks of the iterable, per-element terms, futures, containers; comprehensions, "
+         "helper functions and helper generators of the package are followed) and must be the list of fn(x) over the items in input order, built inside "
+         "the executor's with-block: from Executor.map, or from submit() with the futures kept in submission order and drained first-in first-out; "
+         "completion-ordered collection APIs, LIFO draining and reordering are violations. Sorts: an anchored function that only delegates to a shared "
+         "helper is read as the helper's body with the arguments substituted, statement-level helper procedures inlined and tests on a literal None "
+         "decided; pending ranges kept on an explicit list worked off by a loop count as the ranges handed on. Key-value partition: every store to the key array is "
          "paired with the same-index store to the value array and the skeleton equals the plain partition; a typestate analysis of the vacated "
          "slot (path-wise over the CFG, with index equalities and flag values) decides for each array that every element store fills the slot "
          "whose element is held elsewhere and that the pivot taken out is stored back on every path to the return. Chunking: the section "
          "sizes, division points and (start, end) table of isplit are evaluated abstractly (runs of equal values, their cumulative sum, offsets "
-         "into it) and compared as integer terms with r sections of q+1 then nchunks-r of q; the list splitarray returns is read as a "
-         "sequence (count, i-th element) whichever way it is built and compared with var[i*nper:(i+1)*nper], count ceil(size/nper). Helpers "
+         "into it; or, for division points written in closed form from an arange, the i-th point as a term, decided on both sides of i = r) "
+         "and compared as integer terms with r sections of q+1 then nchunks-r of q; the list splitarray returns is read as a "
+         "sequence (count, i-th element) whichever way it is built (loop-carried bounds with a constant step are solved in closed form) and "
+         "compared with var[i*nper:(i+1)*nper], count ceil(size/nper). Helpers "
          "of the package are followed (yield from / for over a wrapping generator, helpers that return a possibly-None total, closures).",
     note="Not decided: that the partition-exchange sort sorts (a proof obligation about the algorithm), process scheduling (delegated "
          "to Executor.map's documented ordering). Trusted: concurrent.futures.Executor.map order, divmod identity.",
@@ -405,6 +413,32 @@ def generators(chk, repo):
 
 
 # ---------------------------------------------------------------------------
+def _explicit_self(repo, fi, call):
+    """`v.m(args)` as `C.m(v, args)` when v is known to be an instance of the package class C that defines m (v = C(...) bound once, or
+    `self` inside a method of C): the call then resolves like any call of a package function, with v in the role of self.  None otherwise"""
+    f = call.func
+    if not (isinstance(f, ast.Attribute) and isinstance(f.value, ast.Name)):
+        return None
+    v = f.value.id
+    cls = None
+    if fi.cls is not None and fi.params and v == fi.params[0] and v not in rules.single_defs(fi.node):
+        cls = ast.Name(id=fi.cls, ctx=ast.Load())
+    else:
+        d = rules.single_defs(fi.node).get(v)
+        if isinstance(d, ast.Call) and dotted_name(d.func):
+            full = repo.resolve_name(fi.module, dotted_name(d.func))
+            if repo.class_of(full) is not None:
+                cls = copy.deepcopy(d.func)
+    if cls is None:
+        return None
+    meth = ast.Attribute(value=cls, attr=f.attr, ctx=ast.Load())
+    full = repo.resolve_name(fi.module, dotted_name(meth))
+    if not repo.has(full) or repo.func(full).cls is None:
+        return None
+    new = ast.Call(func=meth, args=[f.value] + list(call.args), keywords=list(call.keywords))
+    return ast.copy_location(ast.fix_missing_locations(ast.copy_location(new, call)), call)
+
+
 class _Null(Nullness):
     """the engine's nullness analysis, extended in two directions so that the flow of a possibly-None value survives the extraction
     of helpers: (1) `x = helper(...)` makes x possibly None when the helper can return None for these arguments (explicit
@@ -486,7 +520,13 @@ class _Null(Nullness):
                             out.add(t.id)
         return res
 
+    def _scan(self, fi, n, e, s, chain):
+        if isinstance(e, ast.Call):
+            e = _explicit_self(self.repo, fi, e) or e
+        Nullness._scan(self, fi, n, e, s, chain)
+
     def may_return_none(self, fi, call, s, chain, depth=0):
+        call = _explicit_self(self.repo, fi, call) or call
         d = dotted_name(call.func)
         if not d or depth > 4:
             return False
@@ -732,6 +772,8 @@ class _Zero(_Null):
             self._scan(fi, n, e.body, t, chain)
             self._scan(fi, n, e.orelse, f, chain)
             return
+        if isinstance(e, ast.Call):
+            e = _explicit_self(self.repo, fi, e) or e
         for d in self._divisors(e):
             zn = self._zero_name(d, s)
             if zn is not None:
@@ -758,6 +800,7 @@ class _Zero(_Null):
                 self._scan(fi, n, c, s, chain)
 
     def may_return_zero(self, fi, call, s, chain, depth=0):
+        call = _explicit_self(self.repo, fi, call) or call
         d = dotted_name(call.func)
         if not d or depth > 4:
             return False
@@ -824,6 +867,448 @@ def zeroness(chk, repo, entries):
 
 
 # ---------------------------------------------------------------------------
+# R20.pmap: what the parallel map returns, as an abstract value.  Nothing is executed: expressions, comprehensions, helper functions and
+# helper generators of the package are evaluated over a small domain of ordered streams:
+#   ('iterable', s)                      an iterable whose items are those of the parameter s, in order
+#   ('stream', ('items', s), E)          a lazy sequence with one element E per item of s, in the order of s
+#   ('stream', ('chunks', s), E)         one element E per chunk, the chunks being consecutive non-empty runs of the items of s
+#   ('cont', kind, stream)               list / tuple / deque holding the elements of the stream in its order
+#   ('item', s) ('chunk', s) ('citem', s)   the current item / chunk / item of the current chunk
+#   ('app', f, v)                        f(v);   ('maplist', f, ('chunk', s))  the list [f(x) for x in chunk]
+#   ('fut', v)                           a future whose result() is v;   ('exec',) the executor;  ('fnparam', f) / ('func', fi) callables
+# None is "not understood".  A construct that is positively order-breaking (completion-ordered collection, LIFO draining, reversal) is
+# recorded in `bad`.  Executor.map is trusted to be list(map(...)) in input order; submit() returns a future per call, and the futures
+# keep the order of the calls when they are collected by an ordered comprehension and drained first-in first-out.
+_UNORDERED = ("as_completed", "imap_unordered", "wait", "apply_async", "map_async", "add_done_callback")
+_REORDER = ("sort", "sorted", "reverse", "reversed", "set", "frozenset", "shuffle", "rotate", "appendleft", "extendleft")
+
+
+class _Frame:
+    def __init__(self, fi, env, resolve, top=False):
+        self.fi, self.env, self.resolve, self.top = fi, env, resolve, top
+
+
+def _loads(fn, name, defs=()):
+    """number of places that read the name (len(name) does not count: it neither draws from nor changes what the name holds; nor do the
+    reads inside the expressions `defs` that define it, which see its previous value)"""
+    skip = {id(c.args[0]) for c in ast.walk(fn) if isinstance(c, ast.Call) and isinstance(c.func, ast.Name) and c.func.id == "len" and len(c.args) == 1}
+    skip |= {id(x) for d in defs if isinstance(d, ast.AST) for x in ast.walk(d)}
+    return sum(1 for x in ast.walk(fn) if isinstance(x, ast.Name) and x.id == name and isinstance(x.ctx, ast.Load) and id(x) not in skip)
+
+
+def _stores(fn, name):
+    return sum(1 for x in ast.walk(fn) if (isinstance(x, ast.Name) and x.id == name and isinstance(x.ctx, (ast.Store, ast.Del)))
+               or (isinstance(x, ast.arg) and x.arg == name)) - (1 if name in func_params(fn) else 0)
+
+
+class _Par:
+    def __init__(self, repo, inside=None):
+        self.repo = repo
+        self.bad = []
+        self.chunk_n = []       # what the chunk length was found to be
+        self.map_chunksize = [] # the chunksize= argument of Executor.map calls (ast or None)
+        self.special = {}       # id(call) -> value of a pop-front expression inside a draining loop
+        self.visited = []       # helper functions that were followed
+        self.exec_params = []   # (helper, parameter) that receives the executor
+        self.inside = inside    # ids of the nodes inside the executor's with-block (frames marked top)
+        self.depth = 0
+
+    # -- helpers --------------------------------------------------------
+    def as_stream(self, v):
+        if v is None:
+            return None
+        if v[0] == "iterable":
+            return ("stream", ("items", v[1]), ("item", v[1]))
+        if v[0] == "cont":
+            return v[2]
+        if v[0] == "stream":
+            return v
+        return None
+
+    def flatten(self, st):
+        """the concatenation of the elements of a stream"""
+        if st is None:
+            return None
+        dom, el = st[1], st[2]
+        if dom[0] == "chunks" and el == ("chunk", dom[1]):
+            return ("stream", ("items", dom[1]), ("item", dom[1]))
+        if dom[0] == "chunks" and el[0] == "maplist" and el[2] == ("chunk", dom[1]):
+            return ("stream", ("items", dom[1]), ("app", el[1], ("item", dom[1])))
+        return None
+
+    def helper_frame(self, g, env):
+        sd = rules.single_defs(g.node)
+        env = {k: v for k, v in env.items() if _stores(g.node, k) == 0}     # a re-bound parameter is not what was passed
+
+        def resolve(name, at):
+            return [(sd[name], None)] if name in sd else None
+        if g not in self.visited:
+            self.visited.append(g)
+        self.exec_params += [(g, k) for k, v in env.items() if v == ("exec",) and (g, k) not in self.exec_params]
+        return _Frame(g, env, resolve)
+
+    def bind(self, g, args, kws):
+        params = [p for p in g.params if not p.startswith("*")]
+        if len(args) > len(params) or any(k not in params for k in kws):
+            return None
+        env = dict(zip(params, args))
+        env.update(kws)
+        return {k: v for k, v in env.items() if v is not None}
+
+    def apply(self, f, args, kws):
+        if f is None:
+            return None
+        if f[0] == "fnparam":
+            return ("app", f[1], args[0]) if (len(args) == 1 and not kws and args[0] is not None) else None
+        if f[0] == "func":
+            env = self.bind(f[1], args, kws)
+            if env is None or self.depth > 6:
+                return None
+            self.depth += 1
+            try:
+                fr = self.helper_frame(f[1], env)
+                return self.gen_stream(fr) if rules.is_generator(f[1].node) else self.ret_value(fr)
+            finally:
+                self.depth -= 1
+        return None
+
+    def ret_value(self, fr):
+        fn = fr.fi.node
+        rets = [x for x in walk_no_nested(fn) if isinstance(x, ast.Return)]
+        if len(rets) != 1 or rets[0].value is None or rets[0] not in fn.body:
+            return None
+        return self.ev(fr, rets[0].value)
+
+    # -- expressions ----------------------------------------------------
+    def ev(self, fr, e, at=None):
+        if id(e) in self.special:
+            return self.special[id(e)]
+        if isinstance(e, ast.Name):
+            if e.id in fr.env:
+                return fr.env[e.id]
+            defs = fr.resolve(e.id, at)
+            if not defs:
+                g = _callee(self.repo, fr.fi, ast.Call(func=e, args=[], keywords=[]))
+                if g is not None:
+                    return ("func", g)
+                if _stores(fr.fi.node, e.id) == 0 and e.id not in func_params(fr.fi.node) and e.id not in fr.fi.module.imports:
+                    return ("fnparam", "<%s>" % e.id)       # a builtin or global callable, named by its text: not the function handed to pmap
+                return None
+            vals = [x[1] if (isinstance(x, tuple) and x[0] == "val") else self.ev(fr, x, a2) for x, a2 in defs]
+            v = vals[0]
+            if any(x != v for x in vals[1:]) or v is None:
+                return None
+            if v[0] in ("cont", "stream") and _loads(fr.fi.node, e.id, [x for x, _ in defs]) != 1:
+                return None             # a stream or a mutable container that something else may also draw from / change
+            return v
+        if isinstance(e, (ast.ListComp, ast.GeneratorExp)):
+            if len(e.generators) != 1:
+                return None
+            g = e.generators[0]
+            if g.ifs or g.is_async or not isinstance(g.target, ast.Name):
+                return None
+            src = self.ev(fr, g.iter, at)
+            if src is not None and src[0] == "chunk":
+                # over the items of one chunk
+                fr2 = _Frame(fr.fi, dict(fr.env, **{g.target.id: ("citem", src[1])}), fr.resolve, fr.top)
+                v = self.ev(fr2, e.elt, at)
+                if not isinstance(e, ast.ListComp) or v is None:
+                    return None
+                if v == ("citem", src[1]):
+                    return src
+                if v[0] == "app" and v[2] == ("citem", src[1]):
+                    return ("maplist", v[1], src)
+                return None
+            st = self.as_stream(src)
+            if st is None:
+                return None
+            fr2 = _Frame(fr.fi, dict(fr.env, **{g.target.id: st[2]}), fr.resolve, fr.top)
+            v = self.ev(fr2, e.elt, at)
+            if v is None:
+                return None
+            out = ("stream", st[1], v)
+            if isinstance(e, ast.ListComp):
+                return self.materialise(fr, e, "list", out)
+            return out
+        if isinstance(e, ast.Call):
+            return self.call(fr, e, at)
+        if isinstance(e, ast.Subscript):
+            v = self.ev(fr, e.value, at)
+            if v is not None and v[0] == "cont":
+                if isinstance(e.slice, ast.Slice) and e.slice.lower is None and e.slice.upper is None and e.slice.step is None:
+                    return v            # a copy
+                return ("part", v, norm(e.slice))
+        return None
+
+    def materialise(self, fr, e, kind, st):
+        if fr.top and self.inside is not None and id(e) not in self.inside and st[2][0] not in ("item", "chunk"):
+            self.bad.append("`%s` is evaluated after the executor's with-block" % norm(e)[:60])
+        return ("cont", kind, st)
+
+    def call(self, fr, e, at):
+        cn = call_name(e)
+        if any(isinstance(a, ast.Starred) for a in e.args):
+            return None
+        if cn in _UNORDERED:
+            self.bad.append("completion-ordered collection `%s`" % norm(e.func))
+            return None
+        if isinstance(e.func, ast.Name) and cn not in fr.env:
+            if cn in ("reversed", "sorted", "set", "frozenset") and e.args and self.as_stream(self.ev(fr, e.args[0], at)) is not None:
+                self.bad.append("`%s(...)` changes the order of the results" % cn)
+                return None
+            if cn == "iter" and len(e.args) == 1 and not e.keywords:
+                v = self.ev(fr, e.args[0], at)
+                return v if (v is not None and v[0] in ("iterable", "stream")) else self.as_stream(v)
+            if cn in ("list", "tuple") and len(e.args) == 1 and not e.keywords:
+                v = self.ev(fr, e.args[0], at)
+                if v is not None and v[0] in ("chunk", "maplist"):
+                    return v if cn == "list" or v[0] == "chunk" else None
+                st = self.as_stream(v)
+                return self.materialise(fr, e, cn, st) if st is not None else None
+            if cn == "map" and len(e.args) == 2 and not e.keywords:
+                f, v = self.ev(fr, e.args[0], at), self.ev(fr, e.args[1], at)
+                if v is not None and v[0] == "chunk" and f is not None:
+                    r = self.apply(f, [("citem", v[1])], {})
+                    return ("maplist", r[1], v) if (r is not None and r[0] == "app" and r[2] == ("citem", v[1])) else None
+                st = self.as_stream(v)
+                if st is None or f is None:
+                    return None
+                r = self.apply(f, [st[2]], {})
+                return ("stream", st[1], r) if r is not None else None
+        if cn == "deque" and len(e.args) == 1 and not e.keywords:
+            st = self.as_stream(self.ev(fr, e.args[0], at))
+            return self.materialise(fr, e, "deque", st) if st is not None else None
+        if cn == "from_iterable" and len(e.args) == 1 and not e.keywords:
+            return self.flatten(self.as_stream(self.ev(fr, e.args[0], at)))
+        g = _callee(self.repo, fr.fi, e) if not (isinstance(e.func, ast.Name) and cn in fr.env) else None
+        if g is not None and g.qualname in ("esutil.pbar.pbar", "esutil.pbar.PBar"):
+            # the progress wrapper yields exactly the items of what it wraps, in order and lazily (rules R20.gen / R20.fwd)
+            a0 = e.args[0] if e.args else kwarg(e, g.params[0])
+            return self.as_stream(self.ev(fr, a0, at)) if a0 is not None else None
+        if cn in ("pbar", "PBar") and g is None and (e.args or kwarg(e, "iterable") is not None):
+            return self.as_stream(self.ev(fr, e.args[0] if e.args else kwarg(e, "iterable"), at))
+        if isinstance(e.func, ast.Attribute):
+            base = self.ev(fr, e.func.value, at)
+            if base is not None and base[0] == "exec":
+                if e.func.attr == "map":
+                    if len(e.args) != 2 or any(k.arg not in ("chunksize", "timeout") for k in e.keywords):
+                        return None
+                    f, st = self.ev(fr, e.args[0], at), self.as_stream(self.ev(fr, e.args[1], at))
+                    if f is None or st is None:
+                        return None
+                    r = self.apply(f, [st[2]], {})
+                    self.map_chunksize.append((e, kwarg(e, "chunksize")))
+                    return ("stream", st[1], r) if r is not None else None
+                if e.func.attr == "submit" and e.args:
+                    f = self.ev(fr, e.args[0], at)
+                    args = [self.ev(fr, a, at) for a in e.args[1:]]
+                    kws = {k.arg: self.ev(fr, k.value, at) for k in e.keywords if k.arg}
+                    if f is None or any(a is None for a in args) or any(k.arg is None for k in e.keywords) or any(v is None for v in kws.values()):
+                        return None
+                    r = self.apply(f, args, kws)
+                    return ("fut", r) if r is not None else None
+                return None
+            if base is not None and base[0] == "fut" and e.func.attr == "result" and not e.args:
+                return base[1]
+            if base is not None and base[0] == "cont" and e.func.attr == "pop" and not e.args:
+                self.bad.append("`%s` takes the newest future first (last-in first-out)" % norm(e))
+                return None
+            if base is not None:
+                return None
+        if g is not None:
+            args = [self.ev(fr, a, at) for a in e.args]
+            kws = {k.arg: self.ev(fr, k.value, at) for k in e.keywords if k.arg}
+            if any(k.arg is None for k in e.keywords):
+                return None
+            return self.apply(("func", g), args, kws)
+        if isinstance(e.func, ast.Name):
+            f = self.ev(fr, e.func, at)
+            if f is not None and f[0] in ("fnparam", "func"):
+                args = [self.ev(fr, a, at) for a in e.args]
+                kws = {k.arg: self.ev(fr, k.value, at) for k in e.keywords if k.arg}
+                return self.apply(f, args, kws)
+        return None
+
+    # -- generators -----------------------------------------------------
+    def gen_stream(self, fr):
+        """the stream a helper generator yields"""
+        fn = fr.fi.node
+
+        def unwrap(stmts):
+            out = []
+            for s_ in stmts:
+                if isinstance(s_, ast.Try) and not s_.handlers and not s_.orelse and not any(_has_yield(x) for x in s_.finalbody):
+                    out += unwrap(s_.body)      # try/finally: the clean-up yields nothing
+                else:
+                    out.append(s_)
+            return out
+        body = [s_ for s_ in unwrap(fn.body) if not _isdoc(s_)]
+        ys = [s_ for s_ in body if _has_yield(s_)]
+        if len(ys) != 1:
+            return None
+        y = ys[0]
+        held = {k for k, v in fr.env.items() if v is not None and v[0] in ("cont", "stream")}
+        for s_ in body[:body.index(y)]:
+            plain = isinstance(s_, ast.Assign) and len(s_.targets) == 1 and isinstance(s_.targets[0], ast.Name)
+            guard = isinstance(s_, ast.If) and not s_.orelse and s_.body and isinstance(s_.body[-1], ast.Raise)
+            if not (plain or guard or isinstance(s_, (ast.Import, ast.ImportFrom, ast.Pass))):
+                return None
+            if held & {x.id for x in ast.walk(s_.value if plain else s_) if isinstance(x, ast.Name)} - ({s_.targets[0].id} if plain else set()):
+                if not (plain and isinstance(s_.value, ast.Call) and isinstance(s_.value.func, ast.Name) and s_.value.func.id == "iter"):
+                    return None         # something is done to a stream or container before it is worked off
+        if any(isinstance(x, ast.Return) and x.value is not None for s_ in body for x in walk_no_nested(s_)):
+            return None
+        if isinstance(y, ast.Expr) and isinstance(y.value, ast.YieldFrom):
+            return self.as_stream(self.ev(fr, y.value.value))
+        if isinstance(y, ast.For) and isinstance(y.target, ast.Name) and not y.orelse:
+            st = self.as_stream(self.ev(fr, y.iter))
+            if st is None:
+                return None
+            return self.loop_body(fr, y, st, {y.target.id: st[2]})
+        if isinstance(y, ast.While) and not y.orelse:
+            c = self.drained_name(y.test)
+            if c is not None:
+                return self.draining_loop(fr, y, c)
+            if isinstance(y.test, ast.Constant) and y.test.value is True:
+                return self.chunker(fr, y, body[body.index(y) + 1:])
+        return None
+
+    def drained_name(self, t):
+        """`while C` / `while len(C)` / `while len(C) > 0` / `while len(C) != 0`"""
+        if isinstance(t, ast.Compare) and len(t.ops) == 1 and isinstance(t.ops[0], (ast.Gt, ast.NotEq)) and norm(t.comparators[0]) == "0":
+            t = t.left
+            if not (isinstance(t, ast.Call) and call_name(t) == "len"):
+                return None
+        if isinstance(t, ast.Call) and isinstance(t.func, ast.Name) and t.func.id == "len" and len(t.args) == 1:
+            t = t.args[0]
+        return t.id if isinstance(t, ast.Name) else None
+
+    def loop_body(self, fr, loop, st, binds):
+        """one round of an item loop: plain assignments, and on every path exactly one yield / yield from"""
+        fall, done = _yield_paths(loop.body)
+        if (fall | done) != {1} or _early_exits(loop):
+            return None
+        fr2 = _Frame(fr.fi, dict(fr.env, **binds), fr.resolve, fr.top)
+        out = None
+        for s_ in loop.body:
+            if isinstance(s_, ast.Assign) and len(s_.targets) == 1 and isinstance(s_.targets[0], ast.Name) and not _has_yield(s_):
+                fr2.env[s_.targets[0].id] = self.ev(fr2, s_.value)
+            elif isinstance(s_, ast.Expr) and isinstance(s_.value, (ast.Yield, ast.YieldFrom)) and out is None:
+                v = self.ev(fr2, s_.value.value) if s_.value.value is not None else None
+                if v is None:
+                    return None
+                if isinstance(s_.value, ast.YieldFrom):
+                    inner = v if v[0] in ("chunk", "maplist") else None
+                    out = self.flatten(("stream", st[1], inner)) if inner is not None else None
+                else:
+                    out = ("stream", st[1], v)
+                if out is None:
+                    return None
+            elif _isdoc(s_) or isinstance(s_, ast.Pass):
+                continue
+            else:
+                return None
+        return out
+
+    def draining_loop(self, fr, loop, c):
+        """while C: ... C.popleft() ...: the elements of the container C, oldest first"""
+        cv = fr.env.get(c)
+        if cv is None:
+            cv = self.ev(fr, ast.Name(id=c, ctx=ast.Load()))
+        if cv is None or cv[0] != "cont":
+            return None
+        uses = [x for s_ in loop.body for x in ast.walk(s_) if isinstance(x, ast.Name) and x.id == c]
+        pops = [x for s_ in loop.body for x in ast.walk(s_) if isinstance(x, ast.Call) and isinstance(x.func, ast.Attribute)
+                and isinstance(x.func.value, ast.Name) and x.func.value.id == c]
+        if len(uses) != 1 or len(pops) != 1:
+            return None
+        pop = pops[0]
+        fifo = (pop.func.attr == "popleft" and cv[1] == "deque" and not pop.args and not pop.keywords) or \
+               (pop.func.attr == "pop" and cv[1] == "list" and len(pop.args) == 1 and norm(pop.args[0]) == "0" and not pop.keywords)
+        if not fifo:
+            if pop.func.attr == "pop" and (not pop.args or norm(pop.args[0]) == "-1"):
+                self.bad.append("`%s` takes the newest future first (last-in first-out)" % norm(pop))
+            return None
+        st = cv[2]
+        self.special[id(pop)] = st[2]
+        try:
+            return self.loop_body(fr, loop, st, {})
+        finally:
+            del self.special[id(pop)]
+
+    def chunker(self, fr, loop, after):
+        """it = iter(X); while True: c = tuple(islice(it, n)); leave when c is empty; yield c  -- consecutive non-empty runs of X"""
+        fn = fr.fi.node
+        body = [s_ for s_ in loop.body if not _isdoc(s_)]
+        if any(_has_yield(s_) for s_ in after) or len(body) not in (2, 3):
+            return None
+        a = body[0]
+        if not (isinstance(a, ast.Assign) and len(a.targets) == 1 and isinstance(a.targets[0], ast.Name)):
+            return None
+        c = a.targets[0].id
+        v = a.value
+        if not (isinstance(v, ast.Call) and isinstance(v.func, ast.Name) and v.func.id in ("tuple", "list") and len(v.args) == 1 and not v.keywords):
+            return None
+        sl = v.args[0]
+        if not (isinstance(sl, ast.Call) and call_name(sl) == "islice" and len(sl.args) == 2 and not sl.keywords and isinstance(sl.args[0], ast.Name)):
+            return None
+        it = sl.args[0].id
+        sd = rules.single_defs(fn)
+        if it not in sd or _loads(fn, it) != 1 or not (isinstance(sd[it], ast.Call) and isinstance(sd[it].func, ast.Name) and sd[it].func.id == "iter"
+                                                        and len(sd[it].args) == 1 and not sd[it].keywords):
+            return None
+        if not any(s_ is rules_stmt_of(fn, sd[it]) for s_ in fn.body) and not any(rules_stmt_of(fn, sd[it]) in getattr(t, "body", []) for t in fn.body if isinstance(t, ast.Try)):
+            return None                 # the iterator is made once, before the loop
+        src = self.ev(fr, sd[it].args[0])
+        if src is None or src[0] != "iterable":
+            return None
+
+        def empty_test(t):
+            """True: t holds when the chunk is empty; False: when it is not empty; None: something else"""
+            if isinstance(t, ast.UnaryOp) and isinstance(t.op, ast.Not):
+                r = empty_test(t.operand)
+                return None if r is None else (not r)
+            if isinstance(t, ast.Name) and t.id == c:
+                return False
+            if isinstance(t, ast.Compare) and len(t.ops) == 1 and norm(t.left) == "len(%s)" % c:
+                k, op = norm(t.comparators[0]), type(t.ops[0])
+                if (k, op) in (("0", ast.Eq), ("1", ast.Lt)):
+                    return True
+                if (k, op) in (("0", ast.Gt), ("0", ast.NotEq), ("1", ast.GtE)):
+                    return False
+            return None
+
+        def leaves(stmts):
+            return len(stmts) == 1 and (isinstance(stmts[0], ast.Break) or (isinstance(stmts[0], ast.Return) and stmts[0].value is None))
+
+        def yields_chunk(stmts):
+            return len(stmts) == 1 and isinstance(stmts[0], ast.Expr) and isinstance(stmts[0].value, ast.Yield) and norm(stmts[0].value.value) == c
+        ok = False
+        if len(body) == 3 and isinstance(body[1], ast.If) and not body[1].orelse:
+            ok = empty_test(body[1].test) is True and leaves(body[1].body) and yields_chunk(body[2:])
+        elif len(body) == 2 and isinstance(body[1], ast.If) and body[1].orelse:
+            r = empty_test(body[1].test)
+            ok = (r is False and yields_chunk(body[1].body) and leaves(body[1].orelse)) or (r is True and leaves(body[1].body) and yields_chunk(body[1].orelse))
+        if not ok:
+            return None
+        self.chunk_n.append(self.ev(fr, sl.args[1]) or ("expr", norm(sl.args[1])))
+        return ("stream", ("chunks", src[1]), ("chunk", src[1]))
+
+
+def rules_stmt_of(fn, expr):
+    """the statement of fn whose value is `expr`"""
+    for x in walk_no_nested(fn):
+        if isinstance(x, ast.Assign) and x.value is expr:
+            return x
+    return None
+
+
+def _unknown_in(v):
+    if v is None:
+        return True
+    return isinstance(v, tuple) and any(_unknown_in(x) for x in v if isinstance(x, tuple) or x is None)
+
+
 def pmap(chk, repo):
     fi = repo.func("esutil.pbar.pmap")
     chk.analysed_unit(fi.qualname)
@@ -840,92 +1325,335 @@ def pmap(chk, repo):
     if mw is None and w.items[0].context_expr.args:
         mw = w.items[0].context_expr.args[0]
     chk.ob("R20.pmap", q + "::worker-count", mw is not None and norm(mw) == "nproc", fi.where(w), "max_workers is the requested nproc")
-    maps = [x for x in ast.walk(w) if isinstance(x, ast.Call) and isinstance(x.func, ast.Attribute) and norm(x.func.value) == ex]
-    chk.ob("R20.pmap", q + "::ordered-map-only", len(maps) == 1 and maps[0].func.attr == "map", fi.where(w),
-           "the only executor API used is the order-preserving map (found %s)" % [m.func.attr for m in maps])
-    forbidden = [norm(x.func) for x in walk_no_nested(fn) if isinstance(x, ast.Call) and call_name(x) in ("as_completed", "imap_unordered", "submit", "wait", "apply_async", "map_async")]
-    chk.ob("R20.pmap", q + "::no-unordered-collection", not forbidden, fi.where(), "no completion-ordered collection API (%s)" % forbidden)
-    if maps:
-        m = maps[0]
-        ok = [norm(a) for a in m.args[:2]] == ["fn", "iterable"]
-        cs = kwarg(m, "chunksize")
-        chk.ob("R20.pmap", q + "::map-roles", ok and cs is not None and norm(cs) == "chunksize", fi.where(m), "ex.map(fn, iterable, chunksize=chunksize)")
-        # every value the function can return is list( [pbar(] ex.map(...) [)] ), evaluated inside the with-block; temporaries are
-        # followed through their reaching definitions
-        cfg = cfg_of(fi)
-        rin, _ = cfg.view().reaching_defs()
-        inside = {id(x) for x in ast.walk(w)}
+    if len(fi.params) < 2:
+        raise AnalysisError("pmap lost its (fn, iterable) parameters")
+    pf, pit = fi.params[0], fi.params[1]
+    # the value of every return, evaluated over the stream domain (names followed through their reaching definitions)
+    cfg = cfg_of(fi)
+    rin, _ = cfg.view().reaching_defs()
+    inside = {id(x) for x in ast.walk(w)}
 
-        def values(e, at, depth=0):
-            """the expressions `e` can stand for at CFG node `at` (names followed through plain assignments); None: not resolvable"""
-            if not isinstance(e, ast.Name) or depth > 6:
-                return [e]
-            defs = rin.get(at.id, {}).get(e.id)
-            if not defs:
-                return None
-            out = []
-            for d in sorted(defs):
-                dn = cfg.node(d)
-                a = dn.ast
-                if dn.kind != "stmt" or not isinstance(a, ast.Assign) or len(a.targets) != 1 or not isinstance(a.targets[0], ast.Name):
-                    return None
-                sub = values(a.value, dn, depth + 1)
-                if sub is None:
-                    return None
-                out += sub
-            return out
-
-        def ordered_list(e, at):
-            """True: list(M) / list(pbar(M, ...)) / [x for x in ...] inside the with-block; False: something else; None: unknown"""
-            src = None
-            if isinstance(e, ast.Call) and isinstance(e.func, ast.Name) and e.func.id == "list" and len(e.args) == 1 and not e.keywords:
-                src = e.args[0]
-            elif isinstance(e, ast.ListComp) and len(e.generators) == 1 and not e.generators[0].ifs and isinstance(e.elt, ast.Name) \
-                    and isinstance(e.generators[0].target, ast.Name) and e.elt.id == e.generators[0].target.id:
-                src = e.generators[0].iter
-            if src is None:
-                return False if isinstance(e, (ast.Call, ast.ListComp, ast.List, ast.Subscript, ast.BinOp, ast.GeneratorExp, ast.Constant)) else None
-            if id(e) not in inside:
-                return False
-            res = True
-            for v in (values(src, at) or [None]):
-                if v is None:
-                    return None
-                if isinstance(v, ast.Call) and call_name(v) in ("pbar", "PBar") and (v.args or kwarg(v, "iterable") is not None):
-                    inner = values(v.args[0] if v.args else kwarg(v, "iterable"), at)
-                    if inner is None:
-                        return None
-                    if not all(x is m for x in inner):
-                        if all(isinstance(x, ast.Call) and any(y is m for y in ast.walk(x)) for x in inner if x is not m):
-                            return None
-                        res = False
-                elif v is not m:
-                    if isinstance(v, ast.Call) and any(x is m for x in ast.walk(v)):
-                        return None     # the ordered map inside a wrapper this rule does not know
-                    res = False
-            return res
-        rns = rules.return_nodes(cfg)
-        verdicts = []
-        for n in rns:
-            rv = n.ast.value
-            vs = values(rv, n) if rv is not None else [ast.Constant(value=None)]
-            if vs is None:
-                verdicts.append(None)
+    def resolve(name, at):
+        if at is None:
+            return None
+        defs = rin.get(at.id, {}).get(name)
+        if not defs:
+            return None
+        out = []
+        for d in sorted(defs):
+            dn = cfg.node(d)
+            a = dn.ast
+            if d == cfg.entry.id and name in penv:
+                out.append((("val", penv[name]), None))     # the parameter as it was passed
                 continue
-            for v in vs:
-                if isinstance(v, ast.Name):
-                    verdicts.append(None)
-                    continue
-                at = n
-                verdicts.append(ordered_list(v, at))
-        ok = None if not verdicts else (False if any(v is False for v in verdicts) else (None if any(v is None for v in verdicts) else True))
-        chk.ob("R20.pmap", q + "::result-is-list-of-ordered-map", ok, fi.where(),
-               "the result is list(pbar(ex.map(...))) evaluated inside the with-block (all items, input order)")
-        falls = [p for p in rules.falls_off_end(cfg) if not (p.kind == "raise")]
-        okr = bool(rns) and not falls and all(n.ast.value is not None for n in rns) and ok is not False
-        chk.ob("R20.pmap", q + "::returns-that-list", None if (okr and ok is None) else okr, fi.where(), "that list is returned unmodified on every path")
-        srt = [norm(x) for x in walk_no_nested(fn) if isinstance(x, ast.Call) and call_name(x) in ("sort", "sorted", "reverse", "reversed", "set", "shuffle")]
-        chk.ob("R20.pmap", q + "::no-reordering", not srt, fi.where(), "nothing reorders or de-duplicates the results (%s)" % srt)
+            if dn.kind != "stmt" or not isinstance(a, ast.Assign) or len(a.targets) != 1 or not isinstance(a.targets[0], ast.Name):
+                return None
+            out.append((a.value, dn))
+        return out
+    penv = {p.lstrip("*"): ("param", p.lstrip("*")) for p in fi.params}
+    penv.update({pf: ("fnparam", pf), pit: ("iterable", pit)})
+    env = dict(penv, **{ex: ("exec",)})
+    env = {k: v for k, v in env.items() if _stores(fn, k) == (1 if k == ex else 0)}
+    par = _Par(repo, inside)
+    top = _Frame(fi, env, resolve, top=True)
+    rns = rules.return_nodes(cfg)
+    vals = [par.ev(top, n.ast.value, n) if n.ast.value is not None else ("none",) for n in rns]
+    scope = [fi] + par.visited
+    # the executor API in use
+    holders = [(fi, ex)] + par.exec_params
+    apis = [x for g, nm in holders for x in walk_no_nested(g.node) if isinstance(x, ast.Call) and isinstance(x.func, ast.Attribute)
+            and isinstance(x.func.value, ast.Name) and x.func.value.id == nm]
+    names = [x.func.attr for x in apis]
+
+    def shaped(v):
+        """('cont', 'list', ('stream', ('items', S), ('app', F, ('item', S)))): the list of F(x) for the items x of S, in the order of S"""
+        return v is not None and len(v) == 3 and v[0] == "cont" and v[1] == "list" and v[2][1][0] == "items" and v[2][2][0] == "app" \
+            and v[2][2][2] == ("item", v[2][1][1]) and isinstance(v[2][2][1], str)
+    if par.bad or (vals and any(not _unknown_in(v) and not shaped(v) for v in vals)):
+        res = False
+    elif vals and all(shaped(v) for v in vals):
+        res = True
+    else:
+        res = None
+    other = [a for a in names if a not in ("map", "submit")]
+    if other or not names:
+        oka = False
+    elif "submit" in names:
+        oka = res           # futures are in submission order; whether they are also collected in that order is what the result analysis decides
+    else:
+        oka = True
+    chk.ob("R20.pmap", q + "::ordered-map-only", oka, fi.where(w),
+           "the executor is used only through the order-preserving map, or through submit with the futures drained in submission order (found %s)" % names)
+    forbidden = [norm(x.func) for g in scope for x in walk_no_nested(g.node) if isinstance(x, ast.Call) and call_name(x) in _UNORDERED]
+    chk.ob("R20.pmap", q + "::no-unordered-collection", not forbidden, fi.where(), "no completion-ordered collection API (%s)" % forbidden)
+    # roles: the mapped function is fn, the items are those of iterable, the chunk size is chunksize
+    if vals and all(shaped(v) for v in vals):
+        okr = all(v[2][2][1] == pf and v[2][1][1] == pit for v in vals)
+        if okr:
+            cs = [c for _, c in par.map_chunksize]
+            if any(c is None or norm(c) != "chunksize" for c in cs):
+                okr = False
+            elif any(c != ("param", "chunksize") for c in par.chunk_n):
+                okr = None              # chunks of another length give the same list: not judged
+    else:
+        okr = None
+    where = fi.where(par.map_chunksize[0][0]) if par.map_chunksize else fi.where(w)
+    if not (okr is None and res is False):      # a result of another kind is reported below
+        chk.ob("R20.pmap", q + "::map-roles", okr, where, "the mapped function is fn, its inputs are the items of iterable, the chunk size is chunksize "
+               "(ex.map(fn, iterable, chunksize=chunksize) or the equivalent with submit)")
+    chk.ob("R20.pmap", q + "::result-is-list-of-ordered-map", res, fi.where(),
+           "the result is list(pbar(<fn over the items, in input order>)) evaluated inside the with-block (all items, input order) %s %s"
+           % ("; ".join(par.bad), [v for v in vals if not shaped(v)][:1] if res is False else ""))
+    falls = [p for p in rules.falls_off_end(cfg) if not (p.kind == "raise")]
+    okt = bool(rns) and not falls and all(n.ast.value is not None for n in rns) and res is not False
+    chk.ob("R20.pmap", q + "::returns-that-list", None if (okt and res is None) else okt, fi.where(), "that list is returned unmodified on every path")
+    srt = [norm(x) for g in scope for x in walk_no_nested(g.node) if isinstance(x, ast.Call) and call_name(x) in _REORDER]
+    chk.ob("R20.pmap", q + "::no-reordering", not srt, fi.where(), "nothing reorders or de-duplicates the results (%s)" % srt)
+
+
+# ---------------------------------------------------------------------------
+# Normal form of an anchored function whose work was moved into shared helpers.  Each step keeps what the function does for every input:
+#   * delegation:  `def f(a, b): return g(a, None, b)`  ->  the body of g with its parameters replaced by what f passes;
+#   * procedures:  a statement `h(x, y)` whose callee only stores into its arguments (no locals, no return)  ->  the body of h;
+#   * None-ness:   tests `p is None` / `p is not None` on a parameter that is passed the literal None, or that is one of the arrays
+#                  being sorted (never None: the property quantifies over lists and arrays), are decided and the dead arm removed;
+#   * un-delegation: a call g(x, None, y) that is, argument for argument, the body of the delegating anchor f is written f(x, y).
+# The rules then read the same statements they read before the helper was shared.
+class _Subst(ast.NodeTransformer):
+    def __init__(self, m):
+        self.m = m
+
+    def visit_Name(self, n):
+        if n.id in self.m:
+            v = self.m[n.id]
+            if isinstance(v, ast.Name):
+                return ast.copy_location(ast.Name(id=v.id, ctx=n.ctx), n)
+            if isinstance(n.ctx, ast.Load):
+                return ast.copy_location(copy.deepcopy(v), n)
+        return n
+
+
+def _plain_params(g):
+    a = g.node.args
+    if a.vararg or a.kwarg or a.kwonlyargs or a.posonlyargs:
+        return None
+    return [x.arg for x in a.args]
+
+
+def _has_nested(fn):
+    return any(isinstance(x, (ast.FunctionDef, ast.AsyncFunctionDef, ast.ClassDef, ast.Lambda)) and x is not fn for x in ast.walk(fn))
+
+
+def _delegation(repo, fi):
+    """(g, call) when the body of fi is nothing but `return g(...)` / `g(...)`, g a function of the package and every argument a
+    parameter of fi or a literal"""
+    body = [x for x in fi.node.body if not _isdoc(x)]
+    if len(body) != 1 or not isinstance(body[0], (ast.Return, ast.Expr)) or not isinstance(body[0].value, ast.Call):
+        return None
+    c = body[0].value
+    if c.keywords or any(isinstance(a, ast.Starred) for a in c.args):
+        return None
+    g = _callee(repo, fi, c)
+    if g is None or g.node is fi.node or g.module is not fi.module or rules.is_generator(g.node) or _has_nested(g.node):
+        return None
+    params = _plain_params(g)
+    if params is None or len(params) != len(c.args):
+        return None
+    if not all((isinstance(a, ast.Name) and a.id in fi.params) or isinstance(a, ast.Constant) for a in c.args):
+        return None
+    return g, c
+
+
+def _stored_names(fn):
+    return {x.id for x in ast.walk(fn) if isinstance(x, ast.Name) and isinstance(x.ctx, (ast.Store, ast.Del))}
+
+
+def _follow_delegation(repo, fi):
+    """fi with the body of the function it delegates to (parameters substituted), or fi itself"""
+    for _ in range(3):
+        d = _delegation(repo, fi)
+        if d is None:
+            return fi
+        g, c = d
+        params = _plain_params(g)
+        stored = _stored_names(g.node)
+        if (stored - set(params)) & set(fi.params):
+            return fi                   # a local of the helper would capture a parameter
+        names = [a.id for a in c.args if isinstance(a, ast.Name)]
+        if len(set(names)) != len(names):
+            return fi                   # one object under two parameter names
+        m, pro = {}, []
+        for p_, a in zip(params, c.args):
+            if isinstance(a, ast.Constant) and p_ in stored:
+                if p_ in fi.params:
+                    return fi
+                pro.append(ast.copy_location(ast.Assign(targets=[ast.Name(id=p_, ctx=ast.Store())], value=copy.deepcopy(a), lineno=g.node.lineno), g.node))
+            else:
+                m[p_] = a
+        body = [_Subst(m).visit(copy.deepcopy(x)) for x in g.node.body]
+        node = copy.copy(fi.node)
+        node.body = pro + body
+        node.decorator_list = []
+        ast.copy_location(node, g.node)
+        ast.fix_missing_locations(node)
+        fi = FuncInfo(fi.qualname, fi.module, fi.cls, node, fi.path)
+    return fi
+
+
+def _procedure_body(repo, fi, call):
+    """the statements a statement-level call stands for, or None"""
+    if call.keywords or any(isinstance(a, ast.Starred) for a in call.args):
+        return None
+    h = _callee(repo, fi, call)
+    if h is None or h.node is fi.node or h.module is not fi.module or rules.is_generator(h.node) or _has_nested(h.node):
+        return None
+    params = _plain_params(h)
+    if params is None or len(params) != len(call.args) or _stored_names(h.node):
+        return None
+    if any(isinstance(x, (ast.Return, ast.Global, ast.Nonlocal, ast.Try, ast.With)) for x in ast.walk(h.node)):
+        return None
+    if not all(isinstance(a, ast.Constant) or _index_term(a) is not None for a in call.args):
+        return None
+    m = dict(zip(params, call.args))
+    return [_Subst(m).visit(copy.deepcopy(x)) for x in h.node.body if not _isdoc(x)]
+
+
+def _map_blocks(node, f):
+    """apply f to every statement list of the function, innermost first"""
+    for x in ast.walk(node):
+        for fld in ("body", "orelse", "finalbody"):
+            v = getattr(x, fld, None)
+            if isinstance(v, list) and v and isinstance(v[0], ast.stmt):
+                setattr(x, fld, f(v) or [ast.copy_location(ast.Pass(), v[0])])
+
+
+def _inline_procedures(repo, fi):
+    changed = []
+
+    def f(stmts):
+        out = []
+        for x in stmts:
+            b = _procedure_body(repo, fi, x.value) if (isinstance(x, ast.Expr) and isinstance(x.value, ast.Call)) else None
+            if b is None:
+                out.append(x)
+            else:
+                changed.append(x)
+                out += b
+        return out
+    node = copy.deepcopy(fi.node)
+    fi2 = FuncInfo(fi.qualname, fi.module, fi.cls, node, fi.path)
+    for _ in range(3):
+        n0 = len(changed)
+        _map_blocks(node, f)
+        if len(changed) == n0:
+            break
+    return fi2 if changed else fi
+
+
+class _FoldNone(ast.NodeTransformer):
+    """decide `x is None` / `x is not None` for the literal None and for names known not to be None; `not`, and/or of decided tests"""
+    def __init__(self, notnone):
+        self.notnone = set(notnone)
+
+    def visit_Compare(self, n):
+        self.generic_visit(n)
+        if len(n.ops) == 1 and isinstance(n.ops[0], (ast.Is, ast.IsNot)) and isinstance(n.comparators[0], ast.Constant) and n.comparators[0].value is None:
+            isnone = None
+            if isinstance(n.left, ast.Constant):
+                isnone = n.left.value is None
+            elif isinstance(n.left, ast.Name) and n.left.id in self.notnone:
+                isnone = False
+            if isnone is not None:
+                return ast.copy_location(ast.Constant(value=(isnone == isinstance(n.ops[0], ast.Is))), n)
+        return n
+
+    def visit_UnaryOp(self, n):
+        self.generic_visit(n)
+        if isinstance(n.op, ast.Not) and isinstance(n.operand, ast.Constant) and isinstance(n.operand.value, bool):
+            return ast.copy_location(ast.Constant(value=not n.operand.value), n)
+        return n
+
+    def visit_BoolOp(self, n):
+        self.generic_visit(n)
+        isand = isinstance(n.op, ast.And)
+        vals = []
+        for v in n.values:
+            if isinstance(v, ast.Constant) and isinstance(v.value, bool):
+                if v.value != isand:
+                    return ast.copy_location(ast.Constant(value=v.value), n)
+                continue
+            vals.append(v)
+        if not vals:
+            return ast.copy_location(ast.Constant(value=isand), n)
+        return vals[0] if len(vals) == 1 else ast.copy_location(ast.BoolOp(op=n.op, values=vals), n)
+
+
+def _specialise_none(fi, notnone):
+    node = _FoldNone([x for x in notnone if x not in _stored_names(fi.node)]).visit(copy.deepcopy(fi.node))
+
+    def f(stmts):
+        out = []
+        for x in stmts:
+            if isinstance(x, ast.If) and isinstance(x.test, ast.Constant) and isinstance(x.test.value, bool):
+                out += x.body if x.test.value else x.orelse
+            else:
+                out.append(x)
+        return out
+    _map_blocks(node, f)
+    ast.fix_missing_locations(node)
+    if ast.dump(node) == ast.dump(fi.node):
+        return fi
+    return FuncInfo(fi.qualname, fi.module, fi.cls, node, fi.path)
+
+
+def _undelegate(repo, fi, anchors):
+    """calls in fi that are, argument for argument, the body of a delegating anchor, written as calls of that anchor"""
+    temps = []
+    for a in anchors:
+        d = _delegation(repo, a)
+        if d is not None:
+            temps.append((a, d[0], d[1]))
+    if not temps:
+        return fi
+    node = copy.deepcopy(fi.node)
+    fi2 = FuncInfo(fi.qualname, fi.module, fi.cls, node, fi.path)
+    changed = False
+    for c in [x for x in ast.walk(node) if isinstance(x, ast.Call)]:
+        if c.keywords or any(isinstance(x, ast.Starred) for x in c.args):
+            continue
+        g = _callee(repo, fi2, c)
+        for a, tg, tc in temps:
+            if g is None or g.node is not tg.node or len(c.args) != len(tc.args):
+                continue
+            bind, ok = {}, True
+            for t, v in zip(tc.args, c.args):
+                if isinstance(t, ast.Constant):
+                    ok = ok and isinstance(v, ast.Constant) and type(v.value) is type(t.value) and v.value == t.value
+                elif t.id in bind:
+                    ok = ok and ast.dump(bind[t.id]) == ast.dump(v)
+                else:
+                    bind[t.id] = v
+            pa = _plain_params(a)
+            if not ok or pa is None or set(bind) != set(pa):
+                continue
+            c.func = ast.copy_location(ast.Name(id=a.name, ctx=ast.Load()), c.func)
+            c.args = [bind[p_] for p_ in pa]
+            changed = True
+            break
+    return fi2 if changed else fi
+
+
+_KEEP = []      # rewritten functions stay alive for the whole run: the engine caches CFGs and definitions by id(node)
+
+
+def _normal_form(repo, fi, arrays=(), anchors=()):
+    f0 = fi
+    fi = _follow_delegation(repo, fi)
+    fi = _inline_procedures(repo, fi)
+    fi = _specialise_none(fi, arrays)
+    fi = _undelegate(repo, fi, [a for a in anchors if a.node is not f0.node])
+    _KEEP.append(fi)
+    return fi
 
 
 # ---------------------------------------------------------------------------
@@ -940,10 +1668,17 @@ class _Rename(ast.NodeTransformer):
 
 
 def keyvalue(chk, repo):
-    pk = repo.func("esutil.algorithm.partition_keyvalue")
-    pp = repo.func("esutil.algorithm.partition")
-    chk.analysed_unit(pk.qualname)
-    chk.analysed_unit(pp.qualname)
+    pk0 = repo.func("esutil.algorithm.partition_keyvalue")
+    pp0 = repo.func("esutil.algorithm.partition")
+    chk.analysed_unit(pk0.qualname)
+    chk.analysed_unit(pp0.qualname)
+    if len(pk0.params) < 2 or not pp0.params:
+        raise AnalysisError("the partition functions lost their array parameters")
+    # the bodies the two anchors stand for (a shared helper is followed, see _normal_form)
+    pk = _normal_form(repo, pk0, arrays=pk0.params[:2])
+    pp = _normal_form(repo, pp0, arrays=pp0.params[:1])
+    if pk is not pk0 or pp is not pp0:
+        chk.assume("the arrays handed to the sorts are not None")
     q = pk.qualname
     keys, vals = pk.params[0], pk.params[1]
     # pairing: every store keys[i] = keys[j] is immediately followed by vals[i] = vals[j]
@@ -1004,6 +1739,7 @@ def keyvalue(chk, repo):
     for q2, part, nargs in (("esutil.algorithm._quicksort", "partition", 1), ("esutil.algorithm._quicksort_keyvalue", "partition_keyvalue", 2)):
         fi = repo.func(q2)
         chk.analysed_unit(q2)
+        fi = _normal_form(repo, fi, arrays=fi.params[:nargs], anchors=[pp0 if nargs == 1 else pk0, fi])
         ok, found = _sort_ranges(fi, part, nargs)
         chk.ob("R20.sort", q2 + "::recursion", ok, fi.where(),
                "partition [start, end], then sort both [start, split-1] and [split+1, end] (by recursion, or by carrying on in a loop) (%s)" % found)
@@ -1543,6 +2279,16 @@ def _sort_ranges(fi, part, nargs):
             if [norm(a) for a in c.args[:nargs]] != arrs or len(c.args) != nargs + 2:
                 return False, norm(c)
             handed.append((sx.ev(c.args[nargs]), sx.ev(c.args[nargs + 1])))
+        elif isinstance(b, ast.Expr) and isinstance(b.value, ast.Call) and isinstance(b.value.func, ast.Attribute) and b.value.func.attr == "append" \
+                and isinstance(b.value.func.value, ast.Name):
+            # the range is put on a list of ranges still to be sorted, which the enclosing loop works off until it is empty
+            c = b.value
+            why = _worklist(fn, pm, c.func.value.id, st, lo, hi, block[k + 1:])
+            if why:
+                return None, why
+            if len(c.args) != 1 or c.keywords or not (isinstance(c.args[0], ast.Tuple) and len(c.args[0].elts) == 2):
+                return None, norm(c)
+            handed.append((sx.ev(c.args[0].elts[0]), sx.ev(c.args[0].elts[1])))
         elif isinstance(b, ast.Assign) and len(b.targets) == 1 and isinstance(b.targets[0], ast.Name):
             if b.targets[0].id == split:
                 return None, "split point re-bound"
@@ -1574,6 +2320,61 @@ def _sort_ranges(fi, part, nargs):
     return (False if all(_known(a) and _known(b) for a, b in handed) else None), text
 
 
+def _worklist(fn, pm, w, st, lo, hi, after):
+    """is `w` a list of pending (lo, hi) ranges: bound once to [(lo, hi)] with the function's own range, worked off by an enclosing
+    `while w:` loop that takes one range per round into (lo, hi) before anything else and never leaves early, and otherwise only
+    appended to?  Returns '' if so, else what is not recognised.  The order in which pending ranges are taken does not matter: they
+    are disjoint."""
+    sd = rules.single_defs(fn)
+    init = sd.get(w)
+    if not (isinstance(init, ast.List) and len(init.elts) == 1 and isinstance(init.elts[0], ast.Tuple) and [norm(x) for x in init.elts[0].elts] == [lo, hi]):
+        return "`%s` does not start as [(%s, %s)]" % (w, lo, hi)
+    loop = None
+    for a in _ancestors(pm, st):
+        if isinstance(a, ast.While):
+            t = a.test
+            if isinstance(t, ast.Compare) and len(t.ops) == 1 and isinstance(t.ops[0], (ast.Gt, ast.NotEq)) and norm(t.comparators[0]) == "0":
+                t = t.left
+            if isinstance(t, ast.Call) and isinstance(t.func, ast.Name) and t.func.id == "len" and len(t.args) == 1:
+                t = t.args[0]
+            if isinstance(t, ast.Name) and t.id == w:
+                loop = a
+            break
+    if loop is None or loop.orelse or loop not in fn.body:
+        return "no enclosing `while %s:` loop" % w
+    k = fn.body.index(loop)
+    defst = [x for x in fn.body[:k] if isinstance(x, ast.Assign) and x.value is init]
+    if len(defst) != 1:
+        return "`%s` is not set up in front of the loop" % w
+    if any(isinstance(x, ast.Name) and isinstance(x.ctx, ast.Store) and x.id in (lo, hi) for b in fn.body[:k] for x in ast.walk(b)):
+        return "range re-bound before the loop"
+    first = loop.body[0] if loop.body else None
+    okp = isinstance(first, ast.Assign) and len(first.targets) == 1 and isinstance(first.targets[0], ast.Tuple) and [norm(x) for x in first.targets[0].elts] == [lo, hi] \
+        and isinstance(first.value, ast.Call) and isinstance(first.value.func, ast.Attribute) and norm(first.value.func.value) == w and not first.value.keywords \
+        and ((first.value.func.attr == "pop" and [norm(x) for x in first.value.args] in ([], ["0"], ["-1"])) or (first.value.func.attr == "popleft" and not first.value.args))
+    if not okp:
+        return "the loop does not begin by taking one range off `%s` into (%s, %s)" % (w, lo, hi)
+    if _early_exits(loop) or any(isinstance(x, ast.Continue) for x in ast.walk(loop)):
+        return "the loop over `%s` can be left early" % w
+    for x in ast.walk(fn):
+        if isinstance(x, ast.Name) and x.id == w:
+            par = pm.get(id(x))
+            gp = pm.get(id(par)) if par is not None else None
+            fine = (isinstance(par, ast.Assign) and par.value is init) or x is loop.test or (isinstance(par, ast.Call) and par in ast.walk(loop.test)) \
+                or (isinstance(par, ast.Attribute) and isinstance(gp, ast.Call) and gp.func is par and (gp is first.value or par.attr == "append"))
+            if not fine:
+                return "`%s` is also used in `%s`" % (w, norm(gp if gp is not None else par)[:50])
+    rebound = [x for b in loop.body[1:] for x in ast.walk(b) if isinstance(x, ast.Name) and isinstance(x.ctx, ast.Store) and x.id in (lo, hi)]
+    if rebound:
+        return "range re-bound inside the loop"
+    # every append happens where the popped range is the one that was just partitioned
+    for x in ast.walk(fn):
+        if isinstance(x, ast.Call) and isinstance(x.func, ast.Attribute) and x.func.attr == "append" and norm(x.func.value) == w \
+                and not any(isinstance(b, ast.Expr) and b.value is x for b in after):
+            return "`%s` elsewhere than after the partition" % norm(x)
+    return ""
+
+
 def _isdoc(x):
     return isinstance(x, ast.Expr) and isinstance(x.value, ast.Constant) and isinstance(x.value.value, str)
 
@@ -1582,6 +2383,10 @@ def quicksort(chk, repo):
     for q, callee, n in (("esutil.algorithm.quicksort", "_quicksort", 1), ("esutil.algorithm.quicksort_keyvalue", "_quicksort_keyvalue", 2)):
         fi = repo.func(q)
         chk.analysed_unit(q)
+        drv = q.rsplit(".", 1)[0] + "." + callee
+        if repo.has(drv):
+            fi = _undelegate(repo, fi, [repo.func(drv)])
+            _KEEP.append(fi)
         calls = [x for x in walk_no_nested(fi.node) if isinstance(x, ast.Call) and call_name(x) == callee]
         ok = len(calls) == 1 and [norm(a) for a in calls[0].args[:n]] == fi.params[:n] and len(calls[0].args) == n + 2
         if ok:
@@ -1791,6 +2596,12 @@ class _Tab:
         self.fields = dict(fields)     # name -> None (not stored) | (cum, offset) | "?" (stored, not understood)
 
 
+class _Seq:
+    """an integer array given by its length and its i-th element as a term in _ISYM (np.arange and what is computed from it element by element)"""
+    def __init__(self, n, elem):
+        self.n, self.elem = n, elem
+
+
 class _Elem:
     def __init__(self, cum, idx):
         self.cum, self.idx = cum, idx
@@ -1835,9 +2646,26 @@ class _IsplitEval(_Sx):
                     if len(r.segs) == 1:
                         return _Rep([(sp.expand(r.segs[0][0] * k), r.segs[0][1])])
                     return None
+        if isinstance(a, _Seq) or isinstance(b, _Seq):
+            return self._elementwise(lambda x, y: _Sx.binop(self, e, x, y), a, b)
         if isinstance(a, (_Rep, _Cum, _Tab)) or isinstance(b, (_Rep, _Cum, _Tab)):
             return None
         return _Sx.binop(self, e, a, b)
+
+    def _elementwise(self, f, a, b):
+        """a binary operation applied element by element to arrays of one length (a scalar is broadcast)"""
+        if isinstance(a, _Seq) and isinstance(b, _Seq):
+            if _teq(a.n, b.n) is not True:
+                return None
+            n, x, y = a.n, a.elem, b.elem
+        elif isinstance(a, _Seq) and self.scalar(b):
+            n, x, y = a.n, a.elem, b
+        elif isinstance(b, _Seq) and self.scalar(a):
+            n, x, y = b.n, a, b.elem
+        else:
+            return None
+        v = f(x, y)
+        return _Seq(n, v) if self.scalar(v) else None
 
     def _arg(self, c, i, name):
         if len(c.args) > i:
@@ -1848,9 +2676,27 @@ class _IsplitEval(_Sx):
         cn = call_name(c)
         if cn in ("array", "asarray", "asanyarray", "list", "ascontiguousarray") and c.args:
             v = self.ev(c.args[0])
-            if isinstance(v, (_Rep, _Cum)):
+            if isinstance(v, (_Rep, _Cum, _Seq)):
                 return v
             return None
+        if cn == "arange" and not any(k.arg not in ("dtype", "like") for k in c.keywords) and 1 <= len(c.args) <= 2:
+            # arange(n) / arange(lo, hi): element i is lo + i, hi - lo elements (counts are positive here: nchunks >= 1 past the guard)
+            lo = self.ev(c.args[0]) if len(c.args) == 2 else sp.Integer(0)
+            hi = self.ev(c.args[-1])
+            if self.scalar(lo) and self.scalar(hi):
+                return _Seq(sp.expand(hi - lo), lo + _ISYM)
+            return None
+        if cn in ("minimum", "maximum") and len(c.args) == 2 and not c.keywords and isinstance(c.func, ast.Attribute):
+            a, b = self.ev(c.args[0]), self.ev(c.args[1])
+            f = sp.Min if cn == "minimum" else sp.Max
+            if isinstance(a, _Seq) or isinstance(b, _Seq):
+                return self._elementwise(f, a, b)
+            return f(a, b) if (self.scalar(a) and self.scalar(b)) else None
+        if cn in ("min", "max") and len(c.args) == 2 and not c.keywords and isinstance(c.func, ast.Name):
+            a, b = self.ev(c.args[0]), self.ev(c.args[1])
+            return (sp.Min if cn == "min" else sp.Max)(a, b) if (self.scalar(a) and self.scalar(b)) else None
+        if dotted_name(c.func) in ("operator.index", "index") and len(c.args) == 1 and not c.keywords:
+            return self.ev(c.args[0])   # the identity on integers (anything else is rejected by it)
         if cn == "full":
             n, v = self._arg(c, 0, "shape"), self._arg(c, 1, "fill_value")
             if n is not None and v is not None:
@@ -1900,7 +2746,7 @@ class _IsplitEval(_Sx):
 
     def subscript(self, e):
         base = self.ev(e.value)
-        if isinstance(base, _Cum):
+        if isinstance(base, (_Cum, _Seq)):
             if isinstance(e.slice, ast.Slice):
                 if e.slice.step is not None:
                     return None
@@ -2066,7 +2912,7 @@ class _IsplitEval(_Sx):
             or (isinstance(idx, ast.Constant) and idx.value is Ellipsis)
         if whole:
             if isinstance(v, _Shift):
-                ln = _total(v.cum.segs)
+                ln = v.cum.n if isinstance(v.cum, _Seq) else _total(v.cum.segs)
                 lo = sp.Integer(0) if v.lo is None else v.lo
                 hi = ln if v.hi is None else v.hi
                 if lo.is_number and lo < 0:
@@ -2140,6 +2986,29 @@ def _qr(v, num, nch):
     return [(f(c), f(x)) for c, x in v]
 
 
+def _closed_form_points(seq, num, nch):
+    """are the nchunks+1 values seq.elem(i), i = 0..nchunks, equal to i*q + min(i, r) with (q, r) = divmod(num, nchunks)?  Decided on the
+    two sides of i = r (i = r - t and i = r + t, t >= 0), where min/max of terms in i and r are plain terms.  True / False / None"""
+    if _teq(seq.n, nch + 1) is not True or not isinstance(seq.elem, sp.Basic):
+        return None
+    R = sp.Symbol("R", integer=True)
+    t = sp.Symbol("t", integer=True, nonnegative=True)
+    try:
+        e = seq.elem.subs({_fdiv(num, nch): _Q, _fmod(num, nch): R}).subs(num, nch * _Q + R)
+        if e.atoms(sp.core.function.AppliedUndef) or not (e.free_symbols <= {_ISYM, _Q, R, nch}):
+            return None                # built from something else than the quotient and the remainder: not judged
+        res = True
+        for at, want in ((R - t, (R - t) * _Q + (R - t)), (R + t, (R + t) * _Q + R)):
+            d = sp.expand(e.subs(_ISYM, at) - want)
+            if d != 0:
+                if d.has(sp.Min) or d.has(sp.Max) or d.has(sp.Piecewise):
+                    return None
+                res = False
+        return res
+    except Exception:
+        return None
+
+
 def chunking(chk, repo):
     fi = repo.func("esutil.algorithm.isplit")
     chk.analysed_unit(fi.qualname)
@@ -2159,10 +3028,12 @@ def chunking(chk, repo):
             if isinstance(v, tuple) and v[0] not in used:
                 used.append(v[0])
     cum = used[0] if len(used) == 1 else (evl.cums[-1] if (not used and len(evl.cums) >= 1) else None)
-    segs = _qr(cum.segs, num, nch) if cum is not None else None
+    seq = cum if isinstance(cum, _Seq) else None
+    segs = _qr(cum.segs, num, nch) if (cum is not None and seq is None) else None
     # quotient and remainder of num by nchunks
     allterms = [t for cu in evl.cums for c, v in cu.segs for t in (c, v)] + [v for v in evl.env.values() if isinstance(v, sp.Basic)] \
-        + [t for v in evl.env.values() if isinstance(v, _Rep) for c, x in v.segs for t in (c, x)]
+        + [t for v in evl.env.values() if isinstance(v, _Rep) for c, x in v.segs for t in (c, x)] \
+        + [t for v in list(evl.env.values()) + [seq] if isinstance(v, _Seq) for t in (v.n, v.elem) if isinstance(t, sp.Basic)]
     has_q = any(t.has(_fdiv(num, nch)) for t in allterms)
     has_r = any(t.has(_fmod(num, nch)) for t in allterms)
     wrong = evl.swapped or any(t.has(_fdiv(nch, num)) or t.has(_fmod(nch, num)) for t in allterms)
@@ -2174,15 +3045,25 @@ def chunking(chk, repo):
     want = [(rx, _Q + 1), (nch - rx, _Q)]
     ok = None
     has_lead = None
-    if segs is not None:
+    found = None
+    if seq is not None:
+        # division points written down in closed form: point i of 0..nchunks is i*q + min(i, r) exactly when the sizes are r sections
+        # of q+1 followed by nchunks-r of q and the points are 0 followed by their cumulative sum
+        ok = _closed_form_points(seq, num, nch)
+        has_lead = ok
+        found = "point i = %s, %s points" % (seq.elem, seq.n)
+    elif segs is not None:
         has_lead = bool(segs) and _teq(segs[0][0], 1) is True and _teq(segs[0][1], 0) is True
         ok = _segs_equal(segs[1:] if has_lead else segs, want, rx)
+        found = "runs %s" % [(str(c), str(v)) for c, v in segs]
     chk.ob("R20.isplit", q + "::section-sizes", ok, fi.where(),
            "section sizes are r sections of q+1 followed by nchunks-r sections of q: sizes differ by at most one, larger first, and sum to num "
-           "by the divmod identity (found runs %s)" % ([(str(c), str(v)) for c, v in segs] if segs is not None else None))
+           "by the divmod identity (found %s)" % found)
     # division points
     okd = None
-    if cum is not None and used:
+    if seq is not None:
+        okd = has_lead
+    elif cum is not None and used:
         okd = bool(has_lead)
     elif cum is not None and has_lead:
         okd = True
@@ -2304,17 +3185,70 @@ def _append_loop(name, fn, depth):
     inner = _sequence(lp.iter, fn, depth + 1)
     if inner is None:
         return None
-    sx = _SplitEval({lp.target.id: inner[1]}, fn)
+    # names the body reads before it binds them are carried from one round to the next (`start = end` at the bottom of the body):
+    # each becomes a symbol for "its value when the round begins", and after the body has been evaluated the recurrence
+    # c(i+1) = c(i) + d with d the same in every round is solved as c(i) = c(0) + i*d (i: number of the round)
+    bound = []
+    for s in lp.body:
+        if isinstance(s, ast.Assign) and len(s.targets) == 1 and isinstance(s.targets[0], ast.Name):
+            bound.append(s.targets[0].id)
+    carried = {}
+    seen_bound = set()
+    for s in lp.body:
+        for x in ast.walk(s.value if isinstance(s, ast.Assign) else s):
+            if isinstance(x, ast.Name) and isinstance(x.ctx, ast.Load) and x.id in bound and x.id not in seen_bound and x.id != lp.target.id:
+                carried.setdefault(x.id, sp.Symbol("@" + x.id, integer=True))
+        if isinstance(s, ast.Assign) and len(s.targets) == 1 and isinstance(s.targets[0], ast.Name):
+            seen_bound.add(s.targets[0].id)
+    if lp.target.id in bound:
+        return None
+    env = {lp.target.id: inner[1]}
+    env.update(carried)
+    sx = _SplitEval(env, fn)
+    elem = None
     for s in lp.body:
         if isinstance(s, ast.Expr) and s.value is app:
-            return inner[0], sx.ev(app.args[0])
-        if isinstance(s, ast.Assign) and len(s.targets) == 1 and isinstance(s.targets[0], ast.Name):
+            if elem is not None:
+                return None
+            elem = sx.ev(app.args[0])
+        elif isinstance(s, ast.Assign) and len(s.targets) == 1 and isinstance(s.targets[0], ast.Name):
             sx.env[s.targets[0].id] = sx.ev(s.value)
         elif isinstance(s, ast.Expr) and isinstance(s.value, ast.Constant):
             continue
         else:
             return None
-    return None
+    if elem is None:
+        return None
+    if carried:
+        closed = {}
+        k = fn.body.index(lp)
+        for name, c in carried.items():
+            # the value before the first round: one plain assignment among the statements in front of the loop, nothing else binds the name
+            binds = [x for x in walk_no_nested(fn) if isinstance(x, ast.Name) and isinstance(x.ctx, (ast.Store, ast.Del)) and x.id == name]
+            inside = [x for b in lp.body for x in ast.walk(b) if isinstance(x, ast.Name) and isinstance(x.ctx, (ast.Store, ast.Del)) and x.id == name]
+            first = [b for b in fn.body[:k] if isinstance(b, ast.Assign) and len(b.targets) == 1 and isinstance(b.targets[0], ast.Name) and b.targets[0].id == name]
+            if len(first) != 1 or len(binds) != len(inside) + 1 or name in func_params(fn):
+                return None
+            c0 = _SplitEval({}, fn).ev(first[0].value)
+            end = sx.env.get(name)
+            if not (isinstance(c0, sp.Basic) and _known(c0) and isinstance(end, sp.Basic) and _known(end)):
+                return None
+            d = sp.expand(end - c)
+            if d.free_symbols & (set(carried.values()) | {_ISYM}):
+                return None             # not a constant step: the recurrence is not solved here
+            closed[c] = c0 + _ISYM * d
+        elem = _subst_value(elem, closed)
+    return inner[0], elem
+
+
+def _subst_value(v, m):
+    if isinstance(v, sp.Basic):
+        return sp.expand(v.subs(m))
+    if isinstance(v, _Slice):
+        return _Slice(v.base, _subst_value(v.lo, m), _subst_value(v.hi, m))
+    if isinstance(v, tuple):
+        return tuple(_subst_value(x, m) for x in v)
+    return v
 
 
 def _nonzero_test(t, sx, neg=False):
